@@ -219,8 +219,15 @@ def _conv_wrappers():
             r = (SStr.lift(left) == SStr.lift(right)) if ls else (SBytes.lift(left) == SBytes.lift(right))
             return r
         return U.consteq(left, right)
+    def xor_bytes(left, right):
+        if isinstance(left, SBytes) or isinstance(right, SBytes):
+            a, b = SBytes.lift(left), SBytes.lift(right)
+            if len(a) != len(b):
+                raise Unsupported("xor_bytes of different lengths on symbolic bytes")
+            return SBytes([(x ^ y) if isinstance(x, int) and isinstance(y, int) else _t8(x) ^ _t8(y) for x, y in zip(a.b, b.b)])
+        return U.xor_bytes(left, right)
     out = {U.to_unicode: to_unicode, U.to_bytes: to_bytes, U.to_native_str: to_native_str, U.join_unicode: join_unicode,
-           U.join_bytes: join_bytes, U.consteq: consteq}
+           U.join_bytes: join_bytes, U.consteq: consteq, U.xor_bytes: xor_bytes}
     for nm, f in (("bascii_to_str", bascii_to_str), ("str_to_bascii", str_to_bascii)):
         if hasattr(K, nm):
             out[getattr(K, nm)] = f
